@@ -46,6 +46,20 @@ type c03In struct {
 	// accel (internalsrv.Internal over a scripted inner handler)
 	Script [][2]string `json:"script,omitempty"`
 	W0     string      `json:"w0,omitempty"`
+	// block: a server block with NAddr addresses (Layout hosts|ports|mixed); the Sub case (site|hide|serve) is run against every address
+	Sub    string `json:"sub,omitempty"`
+	Layout string `json:"layout,omitempty"`
+	NAddr  int    `json:"naddr,omitempty"`
+	ep     *c03Endpoint // set while the case runs as a part of a block
+	// htmatch: GetHtpasswdMatcher on a file with this text
+	Text      string   `json:"text,omitempty"`
+	User      string   `json:"user,omitempty"`
+	Pws       []string `json:"pws,omitempty"`
+	TruthBits *[]bool  `json:"truth,omitempty"`
+	// seq: a running site with htpasswd-file rules and a sequence of requests / file replacements / restarts
+	Files    map[string]c03SeqFile `json:"files,omitempty"`
+	SeqRules []c03SeqRule          `json:"seqrules,omitempty"`
+	Steps    []c03SeqStep          `json:"steps,omitempty"`
 }
 
 const (
@@ -329,11 +343,11 @@ func c03Run(in0 interface{}) Result {
 		for _, e := range in.Extras {
 			body += strings.ReplaceAll(e, "BACKEND", c03Backend.URL) + "\n"
 		}
-		st, err := getSite(body)
+		where, err := c03Where(in, body)
 		if err != nil {
 			return Result{Term: "(CSite false false)", Obs: "start error: " + err.Error(), Class: "site:start-error", Sig: "site:start-error"}
 		}
-		resp, _, emitted := c03Do(st.addr, in)
+		resp, _, emitted := c03Do(where, in)
 		views := decodedViews(resp.Body)
 		var leaked, leakedRes []string
 		for _, tok := range c03TokenOrder {
@@ -467,11 +481,11 @@ func c03Run(in0 interface{}) Result {
 			return Result{Term: "(CSite false false)", Obs: "unknown prot / unparsable target", Class: "hide:skipped", Sig: "hide:skipped"}
 		}
 		body := "root " + root + "\n" + prot.text + "\n" + strings.Join(in.Extras, "\n") + "\n"
-		st, err := getSite(body)
+		where, err := c03Where(in, body)
 		if err != nil {
 			return Result{Term: "(CSite false false)", Obs: "start error: " + err.Error(), Class: "hide:start-error", Sig: "hide:start-error"}
 		}
-		resp, _, _ := c03Do(st.addr, in)
+		resp, _, _ := c03Do(where, in)
 		d := path.Clean("/" + u.Path)
 		kind, names := c03ListedNames(resp, d)
 		if kind == "" {
@@ -504,12 +518,12 @@ func c03Run(in0 interface{}) Result {
 			return Result{Term: "(CSite false false)", Obs: "unknown prot / unparsable target", Class: "serve:skipped", Sig: "serve:skipped"}
 		}
 		body := "root " + root + "\n" + prot.text + "\n" + strings.Join(in.Extras, "\n") + "\n"
-		st, err := getSite(body)
+		where, err := c03Where(in, body)
 		if err != nil {
 			return Result{Term: "(CSite false false)", Obs: "start error: " + err.Error(), Class: "serve:start-error", Sig: "serve:start-error"}
 		}
 		in.Method = "GET"
-		resp, _, _ := c03Do(st.addr, in)
+		resp, _, _ := c03Do(where, in)
 		views := decodedViews(resp.Body)
 		files, dirs, toks := c03FixtureIndex(root)
 		var served []string
@@ -542,6 +556,12 @@ func c03Run(in0 interface{}) Result {
 		return Result{Term: cApp("CServe", cStrList(prot.ipaths), cStrList(idx), cStrList(exts), cStrList(files), cStrList(dirs), cStr(u.Path), cStrList(served)),
 			Obs: map[string]interface{}{"status": resp.Status, "served": served, "encoding": resp.Header.Get("Content-Encoding")}, Sig: sig,
 			Nontrivial: len(served) > 0 || resp.Status == 404, Key: body + "|" + in.Target + in.AE, Class: fmt.Sprintf("serve:%s:%d:%d", in.Prot, resp.Status, len(served))}
+	case "block":
+		return c03RunBlock(in)
+	case "seq":
+		return c03RunSeq(in)
+	case "htmatch":
+		return c03RunHtMatch(in)
 	case "assigners":
 		files := c03Assigners()
 		return Result{Term: cApp("CAssigners", cStrList(files)), Obs: files, Sig: "assigners", Nontrivial: true, Class: "assigners"}
@@ -564,6 +584,9 @@ func c03Do(addr string, in *c03In) (rawResp, []string, bool) {
 	}
 	if in.Accept == "json" {
 		hdr["Accept"] = "application/json"
+	}
+	if in.ep != nil {
+		hdr["Host"] = in.ep.host
 	}
 	c03BackMu.Lock()
 	c03BackSeen, c03BackEmitted = nil, false
@@ -1028,7 +1051,29 @@ func c03Gen(r *Rand, tier string) []interface{} {
 		}
 		out = append(out, in)
 	}
-	return out
+	// blocks, htpasswd matchers and request sequences: their case terms are large, so they are spread
+	// evenly (in runs of 8, which keeps a block's cases together) over the shards
+	extra := c03GenState(r, tier)
+	nchunks := (len(extra) + 7) / 8
+	if nchunks == 0 {
+		return out
+	}
+	every := len(out)/nchunks + 1
+	var mixed []interface{}
+	k := 0
+	for i, c := range out {
+		mixed = append(mixed, c)
+		if (i+1)%every == 0 && k < len(extra) {
+			hi := k + 8
+			if hi > len(extra) {
+				hi = len(extra)
+			}
+			mixed = append(mixed, extra[k:hi]...)
+			k = hi
+		}
+	}
+	mixed = append(mixed, extra[k:]...)
+	return mixed
 }
 
 func dedupe(xs []string) []string {
@@ -1077,7 +1122,7 @@ func c03FilterBrowse(xs []string) []string {
 func init() {
 	register(&Property{
 		ID: "C03", Imports: "V.Lib V.GoPath V.C03_Model", Judge: "judge",
-		Rule: "source scan for assignments to a request's URL path; internalsrv.Internal over scripted inner handlers (X-Accel-Redirect response/request headers, loops); canonical-order sites (rewriters incl. prefix-stripping and capture rewrites, tryfiles, ext x 1-3 basicauth rules with nested excludes x internal x proxy to a recording backend that can answer X-Accel-Redirect) compared with the chain model on the final path measured on the unprotected twin site; direct Path.Matches calls on generated spellings/bases; basicauth rules built by the real directive parser (resources, excludes, which credentials the request carries) and internal; full in-process sites (protection directive x random subset of rewrite/tryfiles/ext/index/gzip/browse+archives/templates/markdown/proxy/header/errors/mime) queried over raw request lines with path spellings x methods x credentials x Accept-Encoding, decoded bodies (gunzip/unzip/untar) searched for planted tokens; non-trivial = matcher true / 401 issued / site answered something other than 404",
+		Rule: "source scan for assignments to a request's URL path; internalsrv.Internal over scripted inner handlers (X-Accel-Redirect response/request headers, loops); canonical-order sites (rewriters incl. prefix-stripping and capture rewrites, tryfiles, ext x 1-3 basicauth rules with nested excludes x internal x proxy to a recording backend that can answer X-Accel-Redirect) compared with the chain model on the final path measured on the unprotected twin site; direct Path.Matches calls on generated spellings/bases; basicauth rules built by the real directive parser (resources, excludes, which credentials the request carries) and internal; full in-process sites (protection directive x random subset of rewrite/tryfiles/ext/index/gzip/browse+archives/templates/markdown/proxy/header/errors/mime) queried over raw request lines with path spellings x methods x credentials x Accept-Encoding, decoded bodies (gunzip/unzip/untar) searched for planted tokens; server blocks with 2-3 addresses (host names on one port / several ports / both) for the hide, serve and site configurations, the request sent to EVERY address and each answer judged like a single site's; basicauth.GetHtpasswdMatcher on generated htpasswd texts (plain, {PLAIN}, {SHA}, apr1, noise, overridden users, malformed lines); request SEQUENCES on one running site with htpasswd-file rules (every ordered pair of users: login, the other name with that password, wrong/no credentials; files replaced and the site restarted, incl. unloadable files) judged per request on status + planted tokens; non-trivial = matcher true / 401 issued / site answered something other than 404",
 		Gen:    c03Gen,
 		Decode: func(raw json.RawMessage) (interface{}, error) { in := &c03In{}; return in, json.Unmarshal(raw, in) },
 		Run:    c03Run,
